@@ -5,7 +5,7 @@
 # Not part of the registered commands.
 #
 #   ./selftest_mutants.sh [--in-place] [--with-baseline] [--tier quick|thorough] [--all-checks]
-#                         [--shard i/n] [--out file] [name-filter]
+#                         [--shard i/n] [--out file] [--names file-with-one-name-per-line] [name-filter]
 #
 # Default mode is ISOLATED: a scratch git worktree of /repo's HEAD and a copy of /verif's harness are
 # created under $ISO (default /tmp/verif-iso-<shard>), the harness's path dependencies are pointed at
@@ -13,10 +13,10 @@
 # stay untouched and usable while this runs. Under `vp run --with-repo` the provided snapshots are used.
 # --in-place applies the patches to /repo itself and uses ./check (what a user of MANIFEST.json does).
 set -u
-BASELINE=0; TIER=quick; FILTER=""; ALLCHK=0; INPLACE=0; SHARD="0/1"; OUT=""
+BASELINE=0; TIER=quick; FILTER=""; ALLCHK=0; INPLACE=0; SHARD="0/1"; OUT=""; NAMES=""
 while [ $# -gt 0 ]; do case "$1" in
   --with-baseline) BASELINE=1;; --tier) TIER="$2"; shift;; --all-checks) ALLCHK=1;; --in-place) INPLACE=1;;
-  --shard) SHARD="$2"; shift;; --out) OUT="$2"; shift;; *) FILTER="$1";; esac; shift; done
+  --shard) SHARD="$2"; shift;; --out) OUT="$2"; shift;; --names) NAMES="$2"; shift;; *) FILTER="$1";; esac; shift; done
 SI=${SHARD%/*}; SN=${SHARD#*/}
 SRC=/verif
 [ -n "${VP_RUN_REPO:-}" ] && SRC="$PWD"
@@ -64,6 +64,7 @@ PY
 n=0
 list | while read -r name prop patch; do
   case "$name" in *"$FILTER"*) ;; *) continue;; esac
+  if [ -n "$NAMES" ] && ! grep -qxF "$name" "$NAMES"; then continue; fi
   n=$((n+1)); if [ $(( (n-1) % SN )) -ne "$SI" ]; then continue; fi
   if ! git -C "$REPO" apply --check "$patch" 2>/dev/null; then echo -e "$name\t$prop\t-\tPATCH-DOES-NOT-APPLY" | tee -a "$OUT"; continue; fi
   git -C "$REPO" apply "$patch"
